@@ -1,5 +1,8 @@
 import TabulaModel.Util
 import TabulaModel.Model.Filters
+import TabulaModel.Model.StreamDict
+import TabulaModel.Model.FilterSpec
+import TabulaModel.Model.StreamConform
 /-!
 Line protocol of C05 (bytes are lower-case hex, `-` = empty; replies `ok <hex>` or `err`):
 
@@ -17,6 +20,30 @@ value), `x` (a non-numeric object) or `~` (absent).
 `parms`  = `~` | `z` (null) | `o` | `d=<P>` | `a:<e>,…` with `e` = `z` | `o` | `d=<P>`.
 `table`  = `_` (empty) or `<in>><out>;…` — results of zlib inflate for the inputs the
 chain feeds to it; `<out>` = hex or `!` (inflate failed).
+
+Dictionary-level ops (`Model/StreamDict.lean`):
+
+* `c05.sd <dict> <data> <table>`    — `streamDecodeD` on the stream dictionary as tabula holds it
+* `c05.spec.hex <data>`, `c05.spec.a85 <data>` — the declarative readings `hexSpec` / `a85Spec`
+  of §7.4.2 / §7.4.3 (`Model/FilterSpec.lean`), compared with the implementation like `c05.hex`
+* `c05.sdc <dict> <data> <table> <ctable>` — like `c05.sd`, with results of x/image/ccitt:
+  `ctable` = `_` or `<4|3><0|1>:<columns>:<rows>:<in>><out>;…` (Group 4 / Group 3, Invert off / on,
+  width, height with -1 = detect) for the argument combinations the harness tried; the model
+  looks up the combination `ccittFaxDecode` derives from the dictionary
+* `c05.conf <stages> <dict>`        — `conformingB`: is the dictionary a conforming description of the
+  pipeline (`true` / `false`); `stages` = `_` or a comma-separated list of `h<0|1>` (ASCIIHex, 1 =
+  abbreviated name), `a<0|1>` (ASCII85), `f<0|1>` (Flate), `t<0|1>:<colors>:<columns>` (Flate + TIFF),
+  `p<0|1>:<pred>:<colors>:<columns>:<tagshex>` (Flate + PNG)
+* `c05.writes <stages> <table> <y> <m1> … <x>` — `chainWritesL`: are the intermediates of an encoded
+  pipeline (outermost encoding first, original last) conforming encodings of one another
+  (`true` / `false`); `table` as for `c05.chain`
+* `c05.sess <calls> <table> <dict1> <data1> <dict2> <data2> …` — `runSession`: `calls` is a
+  comma-separated list of stream indices (a history of `Decode()` calls); the reply joins the
+  results with `|`
+
+`dict` is an object in the wire form `obj` = `N` (Go nil) | `z` (Null) | `T` | `F` | `i<int>` | `r<m>/<e>` (the
+Real m/2^e) | `s<hex>` (String) | `n<hex>` (Name) | `o` (stream / indirect reference) |
+`a[<obj>,…]` | `d[<hexkey>=<obj>,…]`.
 -/
 namespace Tabula.C05H
 open Tabula Tabula.Filters
@@ -87,18 +114,168 @@ def lookupTable (t : List (Str × Option Str)) (x : Str) : Option Str :=
   | some e => e.2
   | none => none
 
+def isHexC (c : Char) : Bool := c.isDigit || ('a' ≤ c && c ≤ 'f') || c == '-'
+
+mutual
+  /-- one object of the wire form; the fuel is the length of the input -/
+  def parseObjF : Nat → List Char → Option (Obj × List Char)
+    | 0, _ => none
+    | f + 1, cs =>
+      match cs with
+      | 'N' :: r => some (.nil, r)
+      | 'z' :: r => some (.null, r)
+      | 'T' :: r => some (.bool true, r)
+      | 'F' :: r => some (.bool false, r)
+      | 'o' :: r => some (.other, r)
+      | 'i' :: r =>
+        let (num, rest) := r.span (fun c => c.isDigit || c == '-')
+        (String.ofList num).toInt?.map fun n => (.int n, rest)
+      | 'r' :: r =>
+        let (num, rest) := r.span (fun c => c.isDigit || c == '-')
+        match rest with
+        | '/' :: rest =>
+          let (ex, rest) := rest.span Char.isDigit
+          match (String.ofList num).toInt?, (String.ofList ex).toNat? with
+          | some m, some e => some (.real m e, rest)
+          | _, _ => none
+        | _ => none
+      | 's' :: r =>
+        let (h, rest) := r.span isHexC
+        (unhexS (String.ofList h)).map fun b => (.str b, rest)
+      | 'n' :: r =>
+        let (h, rest) := r.span isHexC
+        (unhexS (String.ofList h)).map fun b => (.name b, rest)
+      | 'a' :: '[' :: ']' :: r => some (.array [], r)
+      | 'a' :: '[' :: r => (parseElemsF f r []).map fun (xs, rest) => (.array xs, rest)
+      | 'd' :: '[' :: ']' :: r => some (.dict [], r)
+      | 'd' :: '[' :: r => (parseKVsF f r []).map fun (kvs, rest) => (.dict kvs, rest)
+      | _ => none
+  def parseElemsF : Nat → List Char → List Obj → Option (List Obj × List Char)
+    | 0, _, _ => none
+    | f + 1, cs, acc =>
+      match parseObjF f cs with
+      | some (o, ',' :: rest) => parseElemsF f rest (o :: acc)
+      | some (o, ']' :: rest) => some ((o :: acc).reverse, rest)
+      | _ => none
+  def parseKVsF : Nat → List Char → List (Str × Obj) → Option (List (Str × Obj) × List Char)
+    | 0, _, _ => none
+    | f + 1, cs, acc =>
+      let (h, rest) := cs.span isHexC
+      match unhexS (String.ofList h), rest with
+      | some k, '=' :: rest =>
+        match parseObjF f rest with
+        | some (o, ',' :: rest) => parseKVsF f rest ((k, o) :: acc)
+        | some (o, ']' :: rest) => some (((k, o) :: acc).reverse, rest)
+        | _ => none
+      | _, _ => none
+end
+
+def parseObj (s : String) : Option Obj :=
+  let cs := s.toList
+  match parseObjF (cs.length + 1) cs with
+  | some (o, []) => some o
+  | _ => none
+
+def parseDict (s : String) : Option Dict :=
+  match parseObj s with
+  | some (.dict kvs) => some kvs
+  | _ => none
+
+def parseStreams : List String → Option Store
+  | [] => some []
+  | d :: x :: rest => do
+    let d ← parseDict d
+    let x ← unhexS x
+    let tl ← parseStreams rest
+    pure ({ dict := d, data := x } :: tl)
+  | _ => none
+
+def parseCEntry (s : String) : Option ((CcittArgs × Str) × Option Str) :=
+  match s.splitOn ">" with
+  | [key, o] =>
+    match key.splitOn ":" with
+    | [gi, columns, rows, i] => do
+      let g ← if gi.startsWith "4" then some true else if gi.startsWith "3" then some false else none
+      let inv ← if gi.endsWith "1" then some true else if gi.endsWith "0" then some false else none
+      let columns ← columns.toInt?
+      let rows ← rows.toInt?
+      let i ← unhexS i
+      let o ← if o == "!" then some none else (unhexS o).map some
+      pure (({ group4 := g, invert := inv, columns := columns, rows := rows }, i), o)
+    | _ => none
+  | _ => none
+
+def parseCTable (s : String) : Option (List ((CcittArgs × Str) × Option Str)) :=
+  if s == "_" then some [] else (s.splitOn ";").mapM parseCEntry
+
+def lookupCTable (t : List ((CcittArgs × Str) × Option Str)) (a : CcittArgs) (x : Str) : Option Str :=
+  match t.find? (fun e => e.1.1 == a && e.1.2 == x) with
+  | some e => e.2
+  | none => none
+
+def parseStage (s : String) : Option WStage :=
+  let short (f : String) : Option Bool := if f == "1" then some true else if f == "0" then some false else none
+  match (s.drop 1).toString.splitOn ":" with
+  | [a] =>
+    if s.startsWith "h" then (short a).map .hex
+    else if s.startsWith "a" then (short a).map .a85
+    else if s.startsWith "f" then (short a).map .flate
+    else none
+  | [a, colors, columns] =>
+    if s.startsWith "t" then do
+      let a ← short a; let colors ← colors.toNat?; let columns ← columns.toNat?
+      pure (.tiff a colors columns)
+    else none
+  | [a, pred, colors, columns, tags] =>
+    if s.startsWith "p" then do
+      let a ← short a; let pred ← pred.toNat?; let colors ← colors.toNat?; let columns ← columns.toNat?
+      let tags ← unhexS tags
+      pure (.png a pred colors columns tags)
+    else none
+  | _ => none
+
+def parseStages (s : String) : Option (List WStage) :=
+  if s == "_" then some [] else (s.splitOn ",").mapM parseStage
+
 def handle (op : String) (args : List String) : String :=
   match op, args with
+  | "c05.writes", st :: t :: ms =>
+    match parseStages st, parseTable t, ms.mapM unhexS with
+    | some st, some t, some ms => toString (chainWritesL (lookupTable t) st ms)
+    | _, _, _ => "bad-op"
+  | "c05.conf", [st, d] =>
+    match parseStages st, parseDict d with
+    | some st, some d => toString (conformingB d st)
+    | _, _ => "bad-op"
+  | "c05.sd", [d, x, t] =>
+    match parseDict d, unhexS x, parseTable t with
+    | some d, some x, some t =>
+      reply (streamDecodeD { inflate := lookupTable t, ccitt := fun _ _ => none } d x)
+    | _, _, _ => "bad-op"
+  | "c05.sdc", [d, x, t, ct] =>
+    match parseDict d, unhexS x, parseTable t, parseCTable ct with
+    | some d, some x, some t, some ct =>
+      reply (streamDecodeD { inflate := lookupTable t, ccitt := lookupCTable ct } d x)
+    | _, _, _, _ => "bad-op"
+  | "c05.sess", calls :: t :: streams =>
+    match (calls.splitOn ",").mapM String.toNat?, parseTable t, parseStreams streams with
+    | some is, some t, some st =>
+      "|".intercalate ((runSession { inflate := lookupTable t, ccitt := fun _ _ => none } st is).map reply)
+    | _, _, _ => "bad-op"
   | "c05.hex", [d] => match unhexS d with
     | some d => reply (hexDecode d) | none => "bad-op"
   | "c05.a85", [d] => match unhexS d with
     | some d => reply (a85Decode d) | none => "bad-op"
+  | "c05.spec.hex", [d] => match unhexS d with
+    | some d => reply (hexSpec d) | none => "bad-op"
+  | "c05.spec.a85", [d] => match unhexS d with
+    | some d => reply (a85Spec d) | none => "bad-op"
   | "c05.pred", [p, d] => match parseParams p, unhexS d with
     | some p, some d => reply (flatePost (some p) d) | _, _ => "bad-op"
   | "c05.chain", [f, p, d, t] =>
     match parseFilter f, parseDParms p, unhexS d, parseTable t with
     | some f, some p, some d, some t =>
-      reply (streamDecode { inflate := lookupTable t, ccitt := fun _ => none } f p d)
+      reply (streamDecode { inflate := lookupTable t, ccitt := fun _ _ => none } f p d)
     | _, _, _, _ => "bad-op"
   | "c05.enc.hex", [u, d] => match unhexS d with
     | some d => reply (some (hexEncode (u == "u") d)) | none => "bad-op"
